@@ -58,7 +58,7 @@ func TestC33Rows(t *testing.T) {
 		fxx := fx.New(fx.Opts{})
 		defer fxx.Close()
 		sess := fxx.NewSession("", "", "")
-		sess.MustExec(rt.Fatalf, "CREATE TABLE t (id INT PRIMARY KEY, s VARCHAR(60), p VARCHAR(200))", "INSERT INTO t VALUES "+strings.Join(vals, ", "))
+		sess.MustExec(rt.Fatalf, "CREATE TABLE t (id INT PRIMARY KEY, s VARCHAR(60), p VARCHAR(4000))", "INSERT INTO t VALUES "+strings.Join(vals, ", "))
 		q := fmt.Sprintf("SELECT id, REGEXP_LIKE(s, p, %s), REGEXP_INSTR(s, p, 1, %d, 0, %s), REGEXP_INSTR(s, p, 1, %d, 1, %s), REGEXP_SUBSTR(s, p, 1, %d, %s), REGEXP_REPLACE(s, p, %s, 1, %d, %s), REGEXP_INSTR(s, p, 1, 1, 0, %s) FROM t",
 			M, occ, M, occ, M, occ, M, R, occR, M, M)
 		r := sess.Exec(q)
